@@ -393,8 +393,7 @@ def run(ck):
         perms_exhaustive(ck, hcmd if n <= 6 else ck.fast_harness, dcmd, n)
         if found_concrete(ck):
             return finish_counts(ck)
-    ck.cov["exhaustive"] = True
-    ck.cov["exhaustive_scope"] = "all insertion orders x all removal orders of n keys, n = 1..%d" % nmax
+    ck.cov["exhaustive_subspace"] = "all insertion orders x all removal orders of n keys, n = 1..%d" % nmax
     if not ck.quick():
         # n = 8: every insertion order against 6 removal orders drawn per block, and every
         # removal order against 6 insertion orders
